@@ -1,9 +1,20 @@
-// ---- TRUSTED: parsing a lossily decoded text: `String::from_utf8_lossy(b).parse::<i64>()` succeeds exactly when the
-// bytes are valid UTF-8 that parse as a decimal i64 (an invalid sequence becomes U+FFFD, which is not a digit).
+// ---- TRUSTED: parsing a lossily decoded text. `String::from_utf8_lossy(b).parse::<F>()` is a deterministic partial
+// function of the bytes (`parse_lossy_spec::<F>`); for i64 it succeeds exactly when the bytes are valid UTF-8 that parse
+// as a decimal i64 (an invalid sequence becomes U+FFFD, which is not a digit).
+pub mod vlossy_parse {
+use vstd::prelude::*;
+use std::borrow::Cow;
+use super::{cow_src, spec_parse_i64};
 verus! {
-/// body is the very expression it replaces at RCALL sites (`text.parse::<i64>()` on a Cow<str>)
+pub uninterp spec fn parse_lossy_spec<F>(b: Seq<u8>) -> Option<F>;
+/// body is the very expression it replaces at RCALL sites (`<Cow<str>>.parse::<F>()`)
 #[verifier::external_body]
-pub fn verif_cow_parse_i64(c: &Cow<'_, str>) -> (r: std::result::Result<i64, core::num::ParseIntError>)
-    ensures match spec_parse_i64(cow_src(*c)) { Some(n) => r == std::result::Result::<i64, core::num::ParseIntError>::Ok(n), None => r is Err },
-{ c.parse::<i64>() }
+pub fn verif_cow_parse<F: core::str::FromStr>(c: Cow<'_, str>) -> (r: std::result::Result<F, F::Err>)
+    ensures match parse_lossy_spec::<F>(cow_src(c)) { Some(n) => r matches Ok(v) && v == n, None => r is Err },
+{ c.parse::<F>() }
+pub broadcast axiom fn axiom_parse_lossy_i64(b: Seq<u8>)
+    ensures #[trigger] parse_lossy_spec::<i64>(b) == spec_parse_i64(b);
+pub broadcast group group_lossy_parse { axiom_parse_lossy_i64 }
 }
+}
+pub use vlossy_parse::*;
